@@ -36,6 +36,11 @@ func runC02(p *Program, r *Report) {
 	c02rsv(p, r, "C02.rsv")
 	c02close(p, r, "C02.close")
 	c14side(p, r, "C02.side")
+	c14sideUse(p, r, "C02.side.use")
+	env := getLockEnv(p)
+	c05pair(p, r, env, "C02.msglock.pair")
+	c05msglock(p, r, "C02.msglock")
+	c02flush(p, r, "C02.flush")
 }
 
 // emitterSites: call sites that operate on the connection's bufio.Writer or write to rwc.
@@ -243,6 +248,51 @@ func c02mask(p *Program, r *Report, rule string) {
 		}
 	}
 	r.Check(rule+".order", "writeFrame/writeFrameHeader/readFrameHeader", "mask key byte order", "-", same, "the mask key is converted with the same byte order (LittleEndian, matching maskGo) at all three sites", fmt.Sprint(orders))
+}
+
+// c02flush: a final frame (and every control frame, which is final) is flushed to the transport
+// before writeFrame reports success; otherwise a pong or close frame would sit in the buffer.
+func c02flush(p *Program, r *Report, rule string) {
+	fn := p.Func("Conn.writeFrame")
+	if fn == nil {
+		return
+	}
+	p.runTable(r, tableSpec{
+		Rule: rule, Fn: fn,
+		Atoms:  []Atom{boolAtom("param:fin"), boolAtom("Conn.client"), boolAtom("Conn.closeSent"), intAtom("param:opcode", []int64{1, 9})},
+		Decide: func(v Valuation) func(string, AV) (bool, bool) { return writeFrameOKDecide },
+		Classify: func(v Valuation, pa *Path) string {
+			if len(pa.Calls("writeFrameHeader")) == 0 {
+				return ""
+			}
+			hi := eventIndex(pa, 0, func(e *Event) bool { return isCall(e, "writeFrameHeader") })
+			pi := eventIndex(pa, 0, func(e *Event) bool { return isCall(e, "Conn.writeFramePayload") })
+			fi := eventIndex(pa, 0, func(e *Event) bool { return isCall(e, "(*bufio.Writer).Flush") && argKey(e, 0) == "Conn.bw" })
+			if pi < hi {
+				return "PAYLOAD-BEFORE-HEADER"
+			}
+			if pi >= 0 && argKey(pa.Events[pi], 1) != "param:p" {
+				return "PAYLOAD=" + argKey(pa.Events[pi], 1)
+			}
+			if fi >= 0 && fi < pi {
+				return "FLUSH-BEFORE-PAYLOAD"
+			}
+			if fi >= 0 {
+				return "HEADER,PAYLOAD,FLUSH"
+			}
+			return "HEADER,PAYLOAD"
+		},
+		Oracle: func(v Valuation) []string {
+			if v.Bool("Conn.closeSent") && v.Int("param:opcode") == 1 {
+				return []string{"NONE"}
+			}
+			if v.Bool("param:fin") {
+				return []string{"HEADER,PAYLOAD,FLUSH"}
+			}
+			return []string{"HEADER,PAYLOAD", "HEADER,PAYLOAD,FLUSH"}
+		},
+		What: "a frame is emitted as header, then the payload p, and — when it is final — flushed to the transport before success is reported",
+	})
 }
 
 func c02bits(p *Program, r *Report, rule string) {
